@@ -60,7 +60,8 @@ def cases(rng, tier):
 
 	# credentials handed over as text (encoded as UTF-8 by the element)
 	for _ in range(n // 8):
-		alpha = u'abcXYZ09 _\u00e4\u00f6\u00fc\u00df\u20ac\u4e2d\U0001f600'
+		# (with text that is not in a Unicode normalisation form: combining marks, compatibility characters, conjoining jamo - data)
+		alpha = u'abcXYZ09 _\u00e4\u00f6\u00fc\u00df\u20ac\u4e2d\U0001f600e\u0301\u212b\u2126\ufb01\u1100\u1161'
 		yield ('text', u''.join(rng.choice(alpha) for _ in range(rng.choice((0, 1, 4, 12)))).replace(u':', u''), u''.join(rng.choice(alpha + u':') for _ in range(rng.choice((0, 1, 6, 30)))))
 	# ONE element whose credentials are changed and that is composed again (a client retrying after a 401): every composed
 	# field stands for the credentials of that moment
@@ -248,9 +249,13 @@ def oracle(case):
 		# the credentials handed over as the other octet-string types (bytearray, memoryview): the same field
 		for how, conv in (('bytearray', bytearray), ('memoryview', memoryview)):
 			try:
-				alt = bytes(element_cls(name)('Basic', {'username': conv(u), 'password': conv(p)}))
+				cu, cp = conv(u), conv(p)
+				ealt = element_cls(name)('Basic', {'username': cu, 'password': cp})
+				alt = bytes(ealt)
 				if alt != value:
 					bad.append('credentials handed over as %s compose %r, as bytes %r' % (how, alt[:80], value[:80]))
+				elif bytes(ealt) != value or bytes(cu) != u or bytes(cp) != p or bytes(element_cls(name)('Basic', {'username': cu, 'password': cp})) != value:
+					bad.append('credentials handed over as %s: composing changed them (second composition %r, the caller\'s objects now %r / %r)' % (how, bytes(ealt)[:80], bytes(cu)[:40], bytes(cp)[:40]))
 			except Exception as ex:
 				if exc_name(ex) not in ('TypeError',):      # refusing the type is fine; composing something else is not
 					bad.append('credentials handed over as %s raised %s' % (how, exc_name(ex)))
